@@ -84,3 +84,48 @@ def vtables(repo, reg, prop, tier, seed):
 
 
 plugin("C14")(vtables)
+
+
+def neighbor_pairs_bounded(repo, reg, prop, tier, seed):
+    """find_neighbor_pairs is not under a discharged contract (see contracts/distance_utils.py): its contract clauses are evaluated on the
+    real code for every set of strings of a bounded universe (bounded stand-in, never counted as proved)."""
+    budget = 600 if tier == "quick" else 6000
+    out = _harness("falsify", {"qualname": "pyrepseq.distance.find_neighbor_pairs", "scope": "neighbor_pairs_sets", "seed": seed, "budget": budget})
+    res = {"name": "find_neighbor_pairs_bounded", "bounded_standins": [{
+        "what": "find_neighbor_pairs: sound / complete / each-pair-once clauses of its (trusted, not discharged) contract evaluated on the real code",
+        "bound": f"first {budget} inputs of the scope neighbor_pairs_sets: every subset (as a list, in two orders) of the strings of length <= 3 over "
+                 "{A, C} up to 5 elements, then random lists over a 3-letter alphabet with duplicates; Hamming and Levenshtein neighbourhoods",
+        "cases": out.get("tried"), "result": "holds" if out.get("found") is False else out,
+        "note": "bounded stand-in; not counted as an obligation"}]}
+    if out.get("found"):
+        name = f"distance.find_neighbor_pairs/bounded[{','.join(out['report']['violations'])[:80]}]"
+        res["checked"] = [{"name": name, "function": "pyrepseq.distance.find_neighbor_pairs", "kind": "bounded", "status": "refuted", "instances": 1,
+                           "solvers": ["concrete evaluation of the contract on the real code"], "time_s": 0.0, "detail": str(out["report"])[:400],
+                           "replay": {"qualname": "pyrepseq.distance.find_neighbor_pairs", "found": True, "args": out["args"], "report": out["report"]}}]
+    elif "error" in out or out.get("found") is None:
+        res["errors"] = [("find_neighbor_pairs_bounded", str(out)[:300])]
+    return res
+
+
+plugin("C12")(neighbor_pairs_bounded)
+
+
+def isdist3_bounded(repo, reg, prop, tier, seed):
+    budget = 600 if tier == "quick" else 6000
+    out = _harness("falsify", {"qualname": "pyrepseq.distance._isdist3_hamming", "scope": "isdist_hamming_calls", "seed": seed, "budget": budget})
+    res = {"name": "isdist3_bounded", "bounded_standins": [{
+        "what": "_isdist3_hamming: 'true iff a three-substitution variant is a reference' evaluated on the real code (the contract is discharged "
+                "deductively by the thorough tier only; in the quick tier it is trusted)",
+        "bound": f"{budget} random inputs: strings over {{A, C}} of length 0..4 with 2..6 references of the same length or of the universe",
+        "cases": out.get("tried"), "result": "holds" if out.get("found") is False else out, "note": "bounded stand-in; not counted as an obligation"}]}
+    if out.get("found"):
+        name = f"distance._isdist3_hamming/bounded[{','.join(out['report']['violations'])[:80]}]"
+        res["checked"] = [{"name": name, "function": "pyrepseq.distance._isdist3_hamming", "kind": "bounded", "status": "refuted", "instances": 1,
+                           "solvers": ["concrete evaluation of the contract on the real code"], "time_s": 0.0, "detail": str(out["report"])[:400],
+                           "replay": {"qualname": "pyrepseq.distance._isdist3_hamming", "found": True, "args": out["args"], "report": out["report"]}}]
+    elif "error" in out or out.get("found") is None:
+        res["errors"] = [("isdist3_bounded", str(out)[:300])]
+    return res
+
+
+plugin("C12")(isdist3_bounded)
